@@ -1094,3 +1094,12 @@ package genql
 //@   requires q: query != nil
 //@   ensures memoised-under-the-name[C14,C03,C13]: has(query.singletonExecutions, name) && query.singletonExecutions[name] == value
 //@   modifies locks M|Str|Any D|Str|Any
+
+// C09: a selector is split into its `::` continuations outside quoted keys
+//@ func parsedSelectors
+//@   at-call continuations assert the-selector-is-split-outside-quoted-keys[C09,C13]: arg0 == selector
+//@ func continuations
+//@   safety[C09]
+//@   frame[C09,C13]
+//@   loop 0 invariant cut-points-in-range[C09]: 0 <= start && start <= i && i <= len(selector)
+//@   ensures at-least-the-selector-itself[C09]: len(result) >= 1
